@@ -348,9 +348,9 @@ func runC06(c *ctx) {
 	// roots: playout = positions from random legal games, sampled = drawn from the solved graph itself;
 	// model = how many of the roots (first the playout ones) are also given to the extracted model
 	specs := []c06graphSpec{
-		{tak.Config{Size: 3, Pieces: 3}, 500, 700, 200, 12000},
-		{tak.Config{Size: 3, Pieces: 3, BlackWinsTies: true}, 200, 300, 60, 6000},
-		{tak.Config{Size: 3, Pieces: 2, Capstones: 1}, 500, 700, 200, 12000},
+		{tak.Config{Size: 3, Pieces: 3}, 500, 700, 150, 12000},
+		{tak.Config{Size: 3, Pieces: 3, BlackWinsTies: true}, 200, 300, 50, 6000},
+		{tak.Config{Size: 3, Pieces: 2, Capstones: 1}, 500, 700, 150, 12000},
 		{tak.Config{Size: 3, Pieces: 2}, 60, 60, 40, 0},
 		{tak.Config{Size: 4, Pieces: 2}, 200, 300, 100, 1000},
 		{tak.Config{Size: 4, Pieces: 1, Capstones: 1}, 100, 100, 40, 0},
@@ -433,6 +433,29 @@ func runC06(c *ctx) {
 			j.gi = i
 			jobs = append(jobs, j)
 			c.stat("hunt_runs", 1)
+		}
+		// the cyclic region of the graph (neither side can force the end of the game: the attacker can only
+		// shuffle) and the positions just before it: here the repetition rule decides the verdict
+		cyc, near := g.cyclicRoots(tak.New(s.cfg), 400*c.scale)
+		c.stat("cyclic_region_roots", int64(len(cyc)))
+		c.stat("near_cyclic_roots", int64(len(near)))
+		for ri, root := range append(append([]*tak.Position{}, cyc...), near...) {
+			for x := 0; x < 4; x++ {
+				var j *c06job
+				if x%2 == 0 {
+					j = c.c06pnJob(root, g)
+					if x == 0 {
+						j.maxNodes, j.maxDepth, j.pn2 = 20000, 0, false
+					}
+				} else {
+					j = c.c06dfpnJob(root, g)
+				}
+				j.modelOK = !j.pn2 && ri%8 == 0 && x < 2
+				j.bigModel = ri%80 == 0
+				j.hunt, j.gi = true, i
+				jobs = append(jobs, j)
+				c.stat("cyclic_hunt_runs", 1)
+			}
 		}
 		// finished games as roots: the verdict must be the result of the game
 		for k := 0; k < 30*c.scale && len(g.finished) > 0; k++ {
@@ -964,6 +987,13 @@ func c06probe(c *ctx) {
 	mx := [2]int32{}
 	in := [2]int{}
 	for a := 0; a < 2; a++ {
+		cyc := 0
+		for v := range g.term {
+			if g.term[v] == 0 && g.dist[a][v] < 0 && !g.ends[a][v] {
+				cyc++
+			}
+		}
+		fmt.Fprintf(os.Stderr, "attacker %d: cyclic region %d positions\n", a, cyc)
 		for _, d := range g.dist[a] {
 			if d >= 0 {
 				in[a]++
